@@ -35,6 +35,21 @@ def load_config():
     if os.path.isdir(d):
         for f in sorted(os.listdir(d)):
             if f.endswith(".json"): merge(cfg, json.load(open(os.path.join(d, f))))
+    # a CLAIMED property is checked only with units the lead has marked ready (vc/claimed.json); units still being
+    # built take part only in the checks of properties that are not claimed yet (developer runs)
+    try:
+        cl = json.load(open(os.path.join(ROOT, "vc", "claimed.json")))
+        ready = set(cl.get("units_ready", []))
+        for pid in cl.get("claimed", []):
+            pc = cfg["properties"].get(pid)
+            if not pc: continue
+            for key in ("units", "kani"):
+                if key in pc:
+                    dropped = [u for u in pc[key] if u not in ready]
+                    pc[key] = [u for u in pc[key] if u in ready]
+                    if dropped: pc.setdefault("not_decided", []).append("units not yet marked ready and therefore not part of this check: %s" % ", ".join(dropped))
+    except FileNotFoundError:
+        pass
     return cfg
 
 def run_verus(path, extra=None, timeout=1500):
